@@ -299,3 +299,108 @@ Proof.
   destruct Hone as [->|[g ->]]; [apply IH; exact Hd|]. cbn [app]. constructor; [|apply IH; exact Hd].
   intro K. apply Hk in K. cbn [fst] in K. contradiction.
 Qed.
+
+(* ---------- the Prev loop over a chain of sections ---------- *)
+(* sections behind the one startxref names, newest first: (offset, what parser::xref_and_trailer finds there).  Each is
+   named by the Prev entry of the section before it, none carries XRefStm (hybrid files are outside C02's domain), the
+   offsets decrease (a section precedes the sections that name it: an appended file) *)
+Definition csec := (N * (xref * dict))%type.
+Definition prev_of (rest : list csec) : option obj :=
+  match rest with [] => None | (off, _) :: _ => Some (OInt (Z.of_N off)) end.
+
+Section Chain.
+  Variable dec : dict -> bytes -> option (dict * bytes).
+  Variable can : dict -> bool.
+  Variable buf : bytes.
+
+  Fixpoint chain_ok (hi : N) (rest : list csec) : Prop :=
+    match rest with
+    | [] => True
+    | (off, (x, t)) :: rest' =>
+      off < hi /\ xref_and_trailer_x dec can buf off = SOk (x, t) /\ dict_get t K_XRefStm = None /\
+      dict_get t K_Prev = prev_of rest' /\ chain_ok off rest'
+    end.
+
+  Lemma chain_len : forall rest hi, chain_ok hi rest -> (length rest <= N.to_nat hi)%nat.
+  Proof.
+    induction rest as [|[off [x t]] rest IH]; intros hi H; [cbn; lia|]. destruct H as [H1 [_ [_ [_ H5]]]].
+    specialize (IH off H5). cbn [length]. lia.
+  Qed.
+
+  Lemma prev_loop_chain : forall rest fuel x t seen hi,
+    chain_ok hi rest -> hi <= blen buf + 1 -> dict_get t K_XRefStm = None ->
+    (forall q, In q seen -> (Z.of_N hi <= q)%Z) -> (length rest <= fuel)%nat ->
+    prev_loop_x dec can fuel buf x t (prev_of rest) seen =
+    SOk (fold_left xref_merge (map (fun s => fst (snd s)) rest) x, t).
+  Proof.
+    induction rest as [|[off [px pt]] rest IH]; intros fuel x t seen hi Hc Hhi Ht Hs Hf.
+    - destruct fuel; reflexivity.
+    - destruct Hc as [H1 [H2 [H3 [H4 H5]]]]. cbn [prev_of length map fold_left fst snd] in *.
+      destruct fuel as [|f]; [lia|]. cbn [prev_loop_x].
+      assert (Hseen : existsb (Z.eqb (Z.of_N off)) seen = false).
+      { destruct (existsb (Z.eqb (Z.of_N off)) seen) eqn:E; [|reflexivity]. apply existsb_exists in E as [q [Hq Eq]].
+        apply Z.eqb_eq in Eq. subst q. specialize (Hs _ Hq). lia. }
+      rewrite Hseen.
+      assert (Hb : (Z.of_N off <? 0)%Z || (blen buf <? Z.to_N (Z.of_N off)) = false).
+      { rewrite N2Z.id. apply orb_false_iff. split; [apply Z.ltb_ge; lia|apply N.ltb_ge; lia]. }
+      rewrite Hb, Ht. cbn [merge_xref_stream_x].
+      assert (R : dict_swap_remove t K_XRefStm = t) by (unfold dict_swap_remove, dict_has; rewrite Ht; reflexivity).
+      rewrite R, N2Z.id, H2, H3. cbn [merge_xref_stream_x]. rewrite H4.
+      apply (IH f (xref_merge x px) t (Z.of_N off :: seen) off H5); [lia|exact Ht| |lia].
+      intros q [<-|Hq]; [lia|]. specialize (Hs _ Hq). lia.
+  Qed.
+
+  (* Reader::read on a file whose sections form such a chain: the three passes over the merged table *)
+  Theorem load_ext_frame_chain x objf posf memf (junk Fb : bytes) version xs x0 t0 rest :
+    pdf_offset (junk ++ Fb) = blen junk -> Fb = buf ->
+    Loader.header Fb = Some version -> get_xref_start Fb = Some xs -> xs <= blen buf ->
+    xref_and_trailer_x dec can Fb xs = SOk (x0, t0) -> dict_get (dict_swap_remove t0 K_Prev) K_XRefStm = None ->
+    dict_get t0 K_Prev = prev_of rest -> chain_ok xs rest ->
+    x_entries (fold_left xref_merge (map (fun s => fst (snd s)) rest) x0) = x ->
+    dict_has (dict_swap_remove t0 K_Prev) K_Encrypt = false ->
+    xref_max_id (fold_left xref_merge (map (fun s => fst (snd s)) rest) x0) < u32_max ->
+    (forall n off g, In (n, XNormal off g) x -> entry_spec dec can buf x objf posf memf n off g) ->
+    load_ext dec can (junk ++ Fb) =
+    LOk {| d_version := version; d_binary_mark := read_binary_mark Fb; d_trailer := dict_swap_remove t0 K_Prev;
+           d_objects := zero_pass buf (merge_object_streams x (fold_left (ins objf) x []) (flat_map (ostm_of memf) x))
+                                  (fold_left (pstep posf) x []) (flat_map (zero_of objf memf) x);
+           d_max_id := xref_max_id (fold_left xref_merge (map (fun s => fst (snd s)) rest) x0) |} (x_type x0).
+  Proof.
+    intros H1 HF H2 H3 Hxs H4 Hst Hp Hc Hx He Hm Hspec.
+    assert (Ety : forall l y, x_type (fold_left xref_merge l y) = x_type y).
+    { induction l as [|z l IH]; intro y; [reflexivity|]. cbn [fold_left]. rewrite IH. reflexivity. }
+    rewrite <- (Ety (map (fun s => fst (snd s)) rest) x0).
+    apply (load_ext_frame_loop dec can buf x objf posf memf junk Fb version xs x0 t0 _ (dict_swap_remove t0 K_Prev));
+      try assumption.
+    rewrite Hp, HF.
+    apply (prev_loop_chain rest (S (S (length buf))) x0 (dict_swap_remove t0 K_Prev) [] xs Hc); [lia|exact Hst|intros q []|].
+    pose proof (chain_len rest xs Hc) as K. unfold blen in Hxs. lia.
+  Qed.
+End Chain.
+
+(* the merged table: for every number the entry of the NEWEST section that has one (Xref::merge = entry().or_insert) *)
+Lemma xget_fold_new : forall (l m : xmap) k,
+  xget (fold_left (fun m ke => xinsert_new m (fst ke) (snd ke)) l m) k =
+  match xget m k with Some e => Some e | None => xget l k end.
+Proof.
+  induction l as [|[k0 e0] l IH]; intros m k; cbn [fold_left xget fst snd].
+  - destruct (xget m k); reflexivity.
+  - rewrite IH. unfold xinsert_new. destruct (xget m k0) as [e1|] eqn:E0.
+    + destruct (xget m k) as [e|] eqn:E; [reflexivity|]. destruct (k0 =? k) eqn:Ek; [|reflexivity].
+      apply N.eqb_eq in Ek. subst k0. rewrite E in E0. discriminate E0.
+    + rewrite XrefProofs.xget_xinsert. destruct (k0 =? k) eqn:Ek.
+      * apply N.eqb_eq in Ek. subst k0. rewrite E0. reflexivity.
+      * destruct (xget m k); reflexivity.
+Qed.
+
+Fixpoint first_entry (l : list xref) (k : N) : option xentry :=
+  match l with [] => None | x :: t => match xget (x_entries x) k with Some e => Some e | None => first_entry t k end end.
+
+Theorem xget_merge_chain : forall (l : list xref) (x : xref) k,
+  xget (x_entries (fold_left xref_merge l x)) k = first_entry (x :: l) k.
+Proof.
+  induction l as [|y l IH]; intros x k; cbn [fold_left first_entry].
+  - destruct (xget (x_entries x) k); reflexivity.
+  - rewrite IH. cbn [first_entry]. unfold xref_merge at 1. cbn [x_entries]. rewrite xget_fold_new.
+    destruct (xget (x_entries x) k); reflexivity.
+Qed.
